@@ -11,10 +11,21 @@ import impl
 from corr import harness
 
 
+def _irrelevant(r, dim, t):
+    """constructor options the stable time step must NOT depend on (density, forcing, free stream, damping width, filter):
+    drawn at random so that a dependence shows as a disagreement with the model, which has no such parameter"""
+    kw = {"flow_density": float([1.0, 1000.0, 0.5, 10 ** r.uniform(-2, 3)][t % 4]), "with_forcing": bool(t % 2), "with_free_stream_flow": bool((t // 2) % 2),
+          "penalty_zone_width": int(t % 3)}
+    if dim == 3 and t % 5 == 0:
+        kw["filter_vorticity"] = True
+        kw["filter_setting_dict"] = {"order": 2, "type": "multiplicative"}
+    return kw
+
+
 def _cases(seed, tier):
     import sopht.simulator as sps
 
-    n = 6 if tier == "quick" else 40
+    n = 9 if tier == "quick" else 40
     out = []
     for t in range(n):
         r = impl.rng(seed, "dt", t)
@@ -29,9 +40,9 @@ def _cases(seed, tier):
         if cls == 0:
             sim = sps.PassiveTransportFlowSimulator(kinematic_viscosity=nu, grid_dim=dim, grid_size=gs, x_range=float(r.uniform(0.5, 4)), cfl=cfl, real_t=real_t)
         elif dim == 2:
-            sim = sps.UnboundedNavierStokesFlowSimulator2D(grid_size=gs, x_range=float(r.uniform(0.5, 4)), kinematic_viscosity=nu, cfl=cfl, real_t=real_t)
+            sim = sps.UnboundedNavierStokesFlowSimulator2D(grid_size=gs, x_range=float(r.uniform(0.5, 4)), kinematic_viscosity=nu, cfl=cfl, real_t=real_t, **_irrelevant(r, 2, t))
         else:
-            sim = sps.UnboundedNavierStokesFlowSimulator3D(grid_size=gs, x_range=float(r.uniform(0.5, 4)), kinematic_viscosity=nu, cfl=cfl, real_t=real_t)
+            sim = sps.UnboundedNavierStokesFlowSimulator3D(grid_size=gs, x_range=float(r.uniform(0.5, 4)), kinematic_viscosity=nu, cfl=cfl, real_t=real_t, **_irrelevant(r, 3, t))
         if kind == "spike":
             idx = tuple(int(r.integers(0, s)) for s in sim.velocity_field.shape)
             sim.velocity_field[idx] = float(r.normal()) * 10
@@ -51,7 +62,8 @@ def _cases(seed, tier):
             cfl = float(r.uniform(0.05, 0.5))
             gs = (16, 20) if dim == 2 else (8, 10, 12)
             if e % 3 == 1 and dim == 2:
-                sim = sps.UnboundedNavierStokesFlowSimulator2D(grid_size=gs, x_range=float(r.uniform(0.5, 4)), kinematic_viscosity=nu, cfl=cfl, real_t=real_t)
+                sim = sps.UnboundedNavierStokesFlowSimulator2D(grid_size=gs, x_range=float(r.uniform(0.5, 4)), kinematic_viscosity=nu, cfl=cfl, real_t=real_t,
+                                                               flow_density=[1000.0, 0.5, 7.0][e % 3])
             else:
                 sim = sps.PassiveTransportFlowSimulator(kinematic_viscosity=nu, grid_dim=dim, grid_size=gs, x_range=float(r.uniform(0.5, 4)), cfl=cfl, real_t=real_t)
             kind = ["zero", "tiny"][e % 2]
@@ -83,7 +95,7 @@ def run(seed=0, tier="quick"):
         tol = 10 * float(np.finfo(real_t).eps)
         rows.append((cfl, sim.dx, nu, tol, umax, dim, prefac))
         impl_dt.append(float(dt))
-        meta.append({"class": cname, "dtype": real_t.__name__, "dim": dim, "nu": nu, "cfl": cfl, "prefac": prefac,
+        meta.append({"class": cname, "dtype": real_t.__name__, "dim": dim, "nu": nu, "cfl": cfl, "prefac": prefac, "flow_density": float(getattr(sim, "flow_density", 1.0)),
                      "velocity": kind, "grid": list(sim.grid_size), "dt": float(dt)})
     model = _model(rows)
     res = {"ok": True, "cases": len(cs), "samples": meta[:3], "name": "Model.stableDtPrefac vs compute_stable_timestep"}
@@ -113,7 +125,7 @@ def oracle(seed=0, tier="quick", aimed=None):
                 dtp = float(sim.compute_stable_timestep(dt_prefac=prefac))
         dx = float(sim.dx)
         umax = float(np.max(np.sum(np.abs(sim.velocity_field.astype(np.float64)), axis=0)))
-        info = {"class": cname, "dtype": real_t.__name__, "dim": dim, "nu": nu, "cfl": cfl, "velocity": kind,
+        info = {"class": cname, "dtype": real_t.__name__, "dim": dim, "nu": nu, "cfl": cfl, "velocity": kind, "flow_density": float(getattr(sim, "flow_density", 1.0)),
                 "grid": list(sim.grid_size), "dx": dx, "dt": dt1}
         cases += 1
         bad = None
